@@ -652,8 +652,10 @@ class Gen:
             if form == 'bytes' and et['k'] == 'uint' and et['w'] <= 8 and all(0 <= e <= 255 for e in elems):
                 tags.add('arr_bytes')
                 if not legal:
-                    if r.random() < 0.6:      # text that int() can parse: must still be rejected for its length (F-PY-NUMTEXT)
-                        elems = [ord(c) for c in (r.choice(['0', '00', ' ', '']) + r.choice(['1', '12', '123', '7', '1_0']) + r.choice(['', ' ', '  '])).ljust(len(elems), ' ')][:max(len(elems), 1)]
+                    if elems and r.random() < 0.6:      # text that int() can parse: must still be rejected for its length (F-PY-NUMTEXT)
+                        # exactly len(elems) bytes -- the ILLEGAL length chosen above must be kept (an empty value stays empty)
+                        txt_ = (r.choice(['0', '00', ' ', '']) + r.choice(['1', '12', '123', '7', '1_0']) + r.choice(['', ' ', '  ']))
+                        elems = [ord(c) for c in txt_.ljust(len(elems), ' ')[:len(elems)]]
                         tags.add('numtext')
                     if mode == 'trigger':
                         tags.discard('arrelem')
